@@ -11,9 +11,11 @@
        3        compress()
        4 k      consume_output(k)
        5 s      set_stream(None if s = 0 else Some(s))
-       6        next request: set_stream(None); parse (feeding greedily, compressing) until a record
-                boundary; consume all output; into_request_parser; request parser greedy until done;
-                into_stream_parser
+       6 k      next request: set_stream(None); parse (feeding greedily, compressing) until a record
+                boundary; consume all output; into_request_parser; release k more bytes of the wire
+                (a client that sends the next request only after the previous one ended); request
+                parser greedy until done; into_stream_parser
+     <B> may carry a second number g: only the first g bytes of the wire are available at first.
        7 n c    like 1 but executed even when stream_buffer is non-empty (precondition violated -> panic expected)
        8        into_input (ends the run) *)
 From FV Require Import Base.Bytes Gen.Generated Codec.Varint Codec.NV Codec.Header Codec.Bodies Codec.Vars
@@ -59,7 +61,7 @@ Fixpoint to_boundary (fuel : nat) (maxc : N) (p : sp) (wire : bytes) (out : byte
     end
   end.
 
-Fixpoint sops (fuel : nat) (maxc : N) (p : sp) (wire : bytes) (ops : list (list N)) : args :=
+Fixpoint sops (fuel : nat) (maxc : N) (p : sp) (wire later : bytes) (ops : list (list N)) : args :=
   match fuel with
   | O => [[888887]]
   | S f =>
@@ -72,22 +74,22 @@ Fixpoint sops (fuel : nat) (maxc : N) (p : sp) (wire : bytes) (ops : list (list 
         let code := hd 99 op in
         let n := feed_amount p wire a1 in
         let dest := if code =? 0 then None else Some a2 in
-        if (code =? 1) && negb (len (stream_buffer p) =? 0) then [[10]] ++ sops f maxc p wire rest   (* skipped: illegal *)
+        if (code =? 1) && negb (len (stream_buffer p) =? 0) then [[10]] ++ sops f maxc p wire later rest   (* skipped: illegal *)
         else
         match sparse maxc p (take n wire) dest with
         | StPanic _ => [[888888]]
-        | StOk p' s => status_obs 1 [] s p' ++ sops f maxc p' (drop n wire) rest
-        | StErr p' e s => status_obs 2 (perr_code e) (mkStatus 0 false 0 []) p' ++ sops f maxc p' (drop n wire) rest
+        | StOk p' s => status_obs 1 [] s p' ++ sops f maxc p' (drop n wire) later rest
+        | StErr p' e s => status_obs 2 (perr_code e) (mkStatus 0 false 0 []) p' ++ sops f maxc p' (drop n wire) later rest
         end
-      | 2 => let p' := consume_stream p a1 in [[3]; stream_buffer p'] ++ sops f maxc p' wire rest
+      | 2 => let p' := consume_stream p a1 in [[3]; stream_buffer p'] ++ sops f maxc p' wire later rest
       | 3 => let p' := compress p in
-             if invars_ok p' then [[4; sinput_space p']; stream_buffer p'] ++ sops f maxc p' wire rest else [[888888]]
-      | 4 => let p' := consume_output p a1 in [[5]; output_buffer p'] ++ sops f maxc p' wire rest
+             if invars_ok p' then [[4; sinput_space p']; stream_buffer p'] ++ sops f maxc p' wire later rest else [[888888]]
+      | 4 => let p' := consume_output p a1 in [[5]; output_buffer p'] ++ sops f maxc p' wire later rest
       | 5 =>
         match set_stream p (if a1 =? 0 then None else Some a1) with
         | SetPanic => [[888888]]
-        | SetErr => [[6; 0; stream_code (stream p)]; stream_buffer p] ++ sops f maxc p wire rest
-        | SetOk p' => [[6; 1; stream_code (stream p')]; stream_buffer p'] ++ sops f maxc p' wire rest
+        | SetErr => [[6; 0; stream_code (stream p)]; stream_buffer p] ++ sops f maxc p wire later rest
+        | SetOk p' => [[6; 1; stream_code (stream p')]; stream_buffer p'] ++ sops f maxc p' wire later rest
         end
       | 6 =>
         match set_stream p None with
@@ -99,11 +101,11 @@ Fixpoint sops (fuel : nat) (maxc : N) (p : sp) (wire : bytes) (ops : list (list 
             else
               match into_request_parser p2 with
               | ConvOk rp =>
-                match run_schedule norm_impl maxc rp wire2 [] with
+                match run_schedule norm_impl maxc rp (wire2 ++ take a1 later) [] with
                 | SOk rp' done unfed out3 =>
                   match into_stream_parser rp' with
                   | inl p3 => [[7; 0; if done then 1 else 0]; out2; out3] ++ req_obs (sreq p3)
-                              ++ [raw_obs p3] ++ sops f maxc p3 unfed rest
+                              ++ [raw_obs p3] ++ sops f maxc p3 unfed (drop a1 later) rest
                   | inr e => [[7; 4] ++ perr_code e; out2; out3]
                   end
                 | _ => [[888888]]
@@ -123,11 +125,14 @@ Fixpoint sops (fuel : nat) (maxc : N) (p : sp) (wire : bytes) (ops : list (list 
 Definition run_str_run (a : args) : args :=
   let B := argn a 0 in let maxc := argn a 1 in let wire := arg a 2 in
   let ops := skipn 3 a in
+  let gate0 := nth 1 (arg a 0) 0 in
+  let later := if gate0 =? 0 then [] else drop gate0 wire in
+  let wire := if gate0 =? 0 then wire else take gate0 wire in
   match run_schedule norm_impl maxc (new_parser B) wire [] with
   | SOk rp done unfed out =>
     match into_stream_parser rp with
     | inl p => [[1; stream_code (stream p); sinput_space p]; out; raw_obs p]
-               ++ sops (length ops + 2) maxc p unfed ops
+               ++ sops (length ops + 2) maxc p unfed later ops
     | inr e => [[2] ++ perr_code e; out]
     end
   | _ => [[888888]]
